@@ -108,39 +108,53 @@ def leafPoints {σ} (S : Src σ) (P : Params) (base levels axes : List Nat) :
       | none => none
       | some (ps, s2) => some (p :: ps, s2)
 
+/-- the pushes at the end of the loop body: `levels_stack_[stack_pos][axis] += 1`, copy to
+    `stack_pos + 1`, `first_half` tuple (if non-empty), `second_half` tuple (if non-empty) -/
+def pushChildren {σ} (P : Params) (fr : Frame) (axis first second : Nat) (st : St σ) :
+    TreeStack.Step Frame (List Nat) (St σ) :=
+  let level := fr.levels.getD axis 0
+  -- levels never exceed `bit_length_`, so the `uint32_t` difference does not wrap
+  let modifier := 2 ^ (P.bitLength - level - 1)
+  let base2 := fr.base.set axis ((fr.base.getD axis 0 + modifier) % 2^32)
+  let levels2 := fr.levels.set axis (level + 1)
+  .split [] (if first ≠ 0 then some ⟨first, axis, fr.base, levels2⟩ else none)
+            (if second ≠ 0 then some ⟨second, axis, base2, levels2⟩ else none) st
+
+/-- the split part of the loop body: `DecodeNumber`, the halves, the optional swap -/
+def splitNode {σ} (S : Src σ) (P : Params) (fr : Frame) (axis : Nat) (s : σ) (decoded : Nat) :
+    Option (TreeStack.Step Frame (List Nat) (St σ)) :=
+  let nm := S.number s (Nat.log2 fr.n)     -- `MostSignificantBit(num_remaining_points)`
+  if fr.n / 2 < nm.1 then none else
+  let first := fr.n / 2 - nm.1
+  let second := fr.n - first
+  if first ≠ second then
+    let hb := S.half nm.2
+    if hb.1 then some (pushChildren P fr axis first second ⟨hb.2, decoded⟩)
+    else some (pushChildren P fr axis second first ⟨hb.2, decoded⟩)
+  else some (pushChildren P fr axis first second ⟨nm.2, decoded⟩)
+
+/-- the loop body once the axis is known -/
+def nodeAt {σ} (S : Src σ) (P : Params) (fr : Frame) (axis : Nat) (s : σ) (decoded : Nat) :
+    Option (TreeStack.Step Frame (List Nat) (St σ)) :=
+  if axis ≥ P.dim then none
+  -- `(bit_length_ - level) == 0`: levels never exceed `bit_length_` (they start at 0 and grow by
+  -- one only when different from it), so the `uint32_t` difference does not wrap and is the
+  -- truncated difference
+  else if P.bitLength - fr.levels.getD axis 0 = 0 then
+    some (.leaf (List.replicate fr.n fr.base) ⟨s, decoded + fr.n⟩)
+  else if fr.n ≤ 2 then
+    match leafPoints S P fr.base fr.levels (axesFrom axis P.dim P.dim) fr.n s with
+    | none => none
+    | some (pts, s1) => some (.leaf pts ⟨s1, decoded + fr.n⟩)
+  else if decoded > P.numPoints then none
+  else splitNode S P fr axis s decoded
+
 /-- body of the `while (!status_stack.empty())` loop of `DecodeInternal`; `none` = `return false` -/
 def node {σ} (S : Src σ) (P : Params) (fr : Frame) (st : St σ) :
     Option (TreeStack.Step Frame (List Nat) (St σ)) :=
   if fr.n > P.numPoints then none else
   let ax := getAxis S P st.src fr.n fr.levels fr.lastAxis
-  let axis := ax.1
-  if axis ≥ P.dim then none else
-  let level := fr.levels.getD axis 0
-  -- `(bit_length_ - level) == 0`: levels never exceed `bit_length_` (they start at 0 and grow by
-  -- one only when different from it: `DracoProofs/KdTreeCell.lean`), so the `uint32_t`
-  -- difference does not wrap and is the truncated difference
-  if P.bitLength - level = 0 then
-    some (.leaf (List.replicate fr.n fr.base) ⟨ax.2, st.decoded + fr.n⟩)
-  else if fr.n ≤ 2 then
-    match leafPoints S P fr.base fr.levels (axesFrom axis P.dim P.dim) fr.n ax.2 with
-    | none => none
-    | some (pts, s1) => some (.leaf pts ⟨s1, st.decoded + fr.n⟩)
-  else if st.decoded > P.numPoints then none
-  else
-    let nrb := P.bitLength - level
-    let modifier := 2 ^ (nrb - 1)
-    let base2 := fr.base.set axis ((fr.base.getD axis 0 + modifier) % 2^32)
-    let nm := S.number ax.2 (Nat.log2 fr.n)     -- `MostSignificantBit(num_remaining_points)`
-    let number := nm.1
-    if fr.n / 2 < number then none else
-    let first := fr.n / 2 - number
-    let second := fr.n - first
-    let hb : Bool × σ := if first ≠ second then S.half nm.2 else (true, nm.2)
-    let fs : Nat × Nat := if hb.1 then (first, second) else (second, first)
-    let levels2 := fr.levels.set axis (level + 1)
-    some (.split [] (if fs.1 ≠ 0 then some ⟨fs.1, axis, fr.base, levels2⟩ else none)
-                 (if fs.2 ≠ 0 then some ⟨fs.2, axis, base2, levels2⟩ else none)
-                 ⟨hb.2, st.decoded⟩)
+  nodeAt S P fr ax.1 ax.2 st.decoded
 
 /-- `while (!status_stack.empty())`; the stack top is the list head; `acc` = the points written
     so far, newest first -/
